@@ -223,7 +223,7 @@ var expectedProbes = map[string][]string{
 	"C04": {"producer-stalled-quiescence-observations", "eof-at-cut-point", "suffix-altered-after-cut-point", "cases-proved-by-causality", "cases-with-late-positions", "prefix-runs-compared", "suffix-runs-compared"},
 	"C05": {"eof-before-warm-up", "action-streams-checked"},
 	"C09": {"calls-alive-at-once", "instance-reused-after-completed-call", "calls-compared-with-fresh-instance", "reports-compared-with-fresh-instance"},
-	"C10": {"read-issued-right-after-append-returned", "reads-compared-with-model", "getsince-boundaries", "pre-existing-empty-file-A", "pre-existing-header-only-A"},
+	"C10": {"read-issued-right-after-append-returned", "reads-compared-with-model", "getsince-boundaries", "backfilling-appends", "pre-existing-empty-file-A", "pre-existing-header-only-A"},
 	"C11": {"file-compared-with-model", "shorter-write-over-longer-file", "permuted-header-documents-read", "json-roundtrips", "fragmented-reads", "append-to-missing-file-rejected"},
 	"C19": {"read-error-fired", "http-transport-error", "http-non-200-status", "unreadable-file:missing", "unreadable-file:directory", "malformed-document", "fragmented-reads", "records-compared-with-reference-decode"},
 	"C12": {"repo-getsince-error", "repo-append-error", "timer-fired", "timer-fired-while-busy", "runs-compared-with-model", "idempotence-runs", "multi-worker-runs"},
